@@ -524,7 +524,9 @@ class KeyPath(formatting.Formattable):
       TypeError: The other object is neither a Keypath nor a string.
     """
     if isinstance(other, str):
-      return comparison(self.path, other)
+      # A str is compared as the path it denotes (key by key, so that
+      # 'a[2]' < 'a[10]'), as a KeyPath would be.
+      other = KeyPath.parse(other)
     if isinstance(other, KeyPath):
       return comparison(
           tuple(map(KeyPath._KeyComparisonWrapper, self.keys)),
